@@ -68,6 +68,11 @@ def _o(v) -> str:
     return "-" if v is None else str(v)
 
 
+def _num(v) -> str:
+    """A duration as built: the number, or - when it is not an integer - its repr (so that a stored string '6' is not mistaken for 6)."""
+    return str(v) if isinstance(v, int) and not isinstance(v, bool) else repr(v)
+
+
 def built_file_name(f: Dict) -> str:
     """File.__init__: a name without extension gets the extension of its declared type (`passwords` + TXT -> `passwords.txt`)."""
     name = f["file_name"]
@@ -114,11 +119,11 @@ def inventory(game, cfg: Dict) -> List[str]:
         for key, attr in (("folder_scan_duration", "scan_duration"), ("folder_restore_duration", "restore_duration")):
             if key in dflt and in_nodes_section:
                 vals = sorted({getattr(f, attr) for f in node.file_system.folders.values()})
-                fsd.append(str(vals[0]) if len(vals) == 1 else "MIXED:" + ",".join(map(str, vals)))
+                fsd.append(_num(vals[0]) if len(vals) == 1 else "MIXED:" + ",".join(map(_num, vals)))
             else:
                 fsd.append("-")
-        out.append(f"node {h} {node._discriminator} {node.operating_state.name} sud={c.start_up_duration} sdd={c.shut_down_duration} "
-                   f"scan={c.node_scan_duration} fsd={fsd[0]}/{fsd[1]} "
+        out.append(f"node {h} {node._discriminator} {node.operating_state.name} sud={_num(c.start_up_duration)} sdd={_num(c.shut_down_duration)} "
+                   f"scan={_num(c.node_scan_duration)} fsd={fsd[0]}/{fsd[1]} "
                    f"dns={_o(getattr(c, 'dns_server', None))} gw={_o(getattr(c, 'default_gateway', None))}")
         for num, nic in node.network_interface.items():
             ip = getattr(nic, "ip_address", None)
@@ -160,7 +165,7 @@ def inventory(game, cfg: Dict) -> List[str]:
             dfix = sw.config.fixing_duration if ("service_fix_duration" in dflt and name in decl_svc and "fixing_duration" not in dopts) else None
             drst = getattr(sw, "restart_duration", "<none>") if ("service_restart_duration" in dflt and name in decl_svc) else None
             out.append(f"sw {h} {name} {kind} n={live.get(name, 0)} st={sw.operating_state.name} h={sw.health_state_actual.name} "
-                       f"dfl={_o(dfix)}/{_o(drst)} {built_opts(sw, dopts)}".rstrip())
+                       f"dfl={'-' if dfix is None else _num(dfix)}/{'-' if drst is None else _num(drst)} {built_opts(sw, dopts)}".rstrip())
         for name in live:
             if name not in sm.software:
                 out.append(f"sw {h} {name} orphan n={live[name]}")
